@@ -80,11 +80,13 @@ func New(prop, level string) *Check {
 	c := &Check{Prop: prop, Tier: TierFromArgs(), Seed: seed, Level: level, start: time.Now(),
 		known: map[string]Finding{}, printed: map[string]bool{}, viols: map[string]string{},
 		Cov: map[string]any{}, MaxSamp: 6}
-	b, err := os.ReadFile(filepath.Join(Root, "known_findings.json"))
+	// committed known-findings files: /verif/known_findings/<Cxx>.json (one per property;
+	// never written at run time)
+	b, err := os.ReadFile(filepath.Join(Root, "known_findings", prop+".json"))
 	if err == nil {
 		var fs []Finding
 		if err := json.Unmarshal(b, &fs); err != nil {
-			Broken("known_findings.json does not parse: %v", err)
+			Broken("known_findings/%s.json does not parse: %v", prop, err)
 		}
 		for _, f := range fs {
 			if f.Property == prop && f.Status == "known" {
